@@ -1,4 +1,6 @@
 import EgVerif.Proofs.Delivery
+import EgVerif.Proofs.SessionQueueExt
+import EgVerif.Proofs.SessionQueueIR
 import EgVerif.Gen.FactsC15
 /-!
 # C15 — MQTT delivery: every eligible subscriber gets each message; QoS1 at-least-once
@@ -286,5 +288,227 @@ client although it holds a matching QoS1 subscription. `collapseMax` keeps 1 in 
 example : collapseLast [("c", 1), ("c", 0)] = [("c", 0)] ∧ collapseLast [("c", 0), ("c", 1)] = [("c", 1)] ∧
     collapseMax [("c", 1), ("c", 0)] = [("c", 1)] ∧ collapseMax [("c", 0), ("c", 1)] = [("c", 1)] ∧
     send (fun _ => true) 1 (collapseLast [("c", 1), ("c", 0)]) = [] := by decide
+
+/-! ### Extension mqtt: packet ids, wrap-around, retransmission of every pending message
+
+Behaviour that DESIGN §10.3 recorded only as observations, now theorems about the model (which the
+in-process correspondence run ties to `session.go`), with NO `NoWrap` hypothesis where it says so. -/
+
+/-- **First packet id is 0.** The first PUBLISH a fresh session sends carries packet id 0 (MQTT 3.1.1 §2.3.1
+asks for a non-zero id when QoS > 0; the C15 statement does not, so this stays an observation — but a proved
+one). -/
+theorem first_qos1_id_zero (m : Msg) (full : Bool) (h : m.qos = 1) :
+    (publish true full m Sess.init).2 = [pkt 0 m] := by
+  simp [publish, h, Sess.init]
+
+/-- **Packet-id allocation law, every trace (no `NoWrap`)**: the counter equals the number of online
+publishes of *any* QoS (QoS0 copies, dropped or not, and QoS2 consume ids too) modulo 65 536, and the next
+QoS1 PUBLISH carries exactly that id. -/
+theorem packet_id_is_publish_count_mod (tr : List Ev) (m : Msg) (full : Bool) (h : m.qos = 1) :
+    (SessionQueue.run Sess.init tr).nextID = consumed 0 tr % idMod ∧
+    (publish true full m (SessionQueue.run Sess.init tr)).2 = [pkt (consumed 0 tr % idMod) m] := by
+  have e := nextID_run tr Sess.init 0 rfl
+  exact ⟨e, by rw [publish_qos1_out _ _ _ h, e]⟩
+
+/-- **Wrap-around onto a still-pending id (one step, every state).** When the uint16 counter has come round
+to an id whose message is still unacknowledged, the next online QoS1 publish replaces that message in
+`pending` (same key set — no second entry) and queues the id again: the older message can never be re-sent. -/
+theorem wrap_overwrites_pending (s : Sess) (m m' : Msg) (full : Bool)
+    (hp : alGet s.nextID s.pending = some m) (h1 : m'.qos = 1) :
+    alGet s.nextID (publish true full m' s).1.pending = some m' ∧
+    (publish true full m' s).1.pending.map Prod.fst = s.pending.map Prod.fst ∧
+    (publish true full m' s).1.queue = s.queue ++ [s.nextID] :=
+  wrap_overwrites_pending_step s m m' full hp h1
+
+/-- **The wrap is reachable and loses a message (violation of "retransmitted until acknowledged").**
+History from a fresh session: QoS1 message `m` (never acknowledged), 65 535 further online publishes of other
+QoS to the same client (`l`, dropped or not), QoS1 message `m'`. Then (1) `pending = [(0, m')]`; (2) whatever
+PUBACKs and however many ticks follow, every packet written is `m'` — `m` is never retransmitted although it
+was never acknowledged; (3) the specification's bookkeeping still lists `m` as the oldest unacknowledged
+message, so `resend_oldest_unacked` is false for this trace (which is why it carries `NoWrap`); (4) the trace
+consumes 65 537 ids, just outside `NoWrap`. Known finding `C15-id-wrap-overwrites-pending`. -/
+theorem wrap_loses_unacked_message (f f' : Bool) (m m' : Msg) (l : List (Bool × Msg)) (h1 : m.qos = 1)
+    (h1' : m'.qos = 1) (hl : ∀ p ∈ l, p.2.qos ≠ 1) (hlen : l.length = 65535) :
+    (SessionQueue.run Sess.init (wrapTrace f f' m m' l)).pending = [(0, m')] ∧
+    (∀ rest, NoPublish rest →
+      ∀ p ∈ outputs (SessionQueue.run Sess.init (wrapTrace f f' m m' l)) rest, p = pkt 0 m') ∧
+    (doResend true (SessionQueue.run Sess.init (wrapTrace f f' m m' l))).2 = [pkt 0 m'] ∧
+    specTick true (unacked (wrapTrace f f' m m' l)).2 = [pkt 0 m] ∧
+    ¬ NoWrap (wrapTrace f f' m m' l) := by
+  obtain ⟨hp, hq, hn⟩ := wrap_state f f' m m' l h1 h1' hl hlen
+  refine ⟨hp, fun rest hr => wrap_never_resends_old f f' m m' l h1 h1' hl hlen rest hr, ?_, ?_, ?_⟩
+  · unfold doResend
+    rw [hp, hq]
+    simp [firstPending, alGet, pkt]
+  · rw [wrap_unacked f f' m m' l h1 h1' hl hlen]; rfl
+  · unfold NoWrap
+    have : consumed 0 (wrapTrace f f' m m' l) = 65537 := by
+      have := unackedFrom_fst (wrapTrace f f' m m' l) (0, [])
+      have e2 : (unackedFrom (0, []) (wrapTrace f f' m m' l)).1 = 65537 := by
+        simp only [wrapTrace, unackedFrom, unackedStep, if_true]
+        rw [unackedFrom_append, unackedFrom_noise l hl]
+        simp [unackedFrom, unackedStep, hlen]
+      rw [← this]; exact e2
+    rw [this]; decide
+
+/-- **Who is re-sent at a tick: exactly the oldest unacknowledged message.** For an unacknowledged `(i, m)`,
+the tick writes it iff it is the head of the unacknowledged list. -/
+theorem resent_iff_oldest (tr : List Ev) (h : NoWrap tr) (i : Id) (m : Msg) :
+    pkt i m ∈ (doResend true (SessionQueue.run Sess.init tr)).2 ↔ (unacked tr).2.head? = some (i, m) := by
+  rw [resend_oldest_unacked tr h]
+  cases hu : (unacked tr).2 with
+  | nil => simp [specTick]
+  | cons e r =>
+    obtain ⟨j, mm⟩ := e
+    simp only [specTick, if_true, List.mem_singleton, List.head?_cons, Option.some.injEq, Prod.mk.injEq]
+    constructor
+    · intro e
+      obtain ⟨t1, p1, q1⟩ := m
+      obtain ⟨t2, p2, q2⟩ := mm
+      simp only [pkt, Packet.mk.injEq] at e
+      obtain ⟨rfl, rfl, rfl, rfl⟩ := e
+      exact ⟨rfl, rfl⟩
+    · rintro ⟨rfl, rfl⟩; rfl
+
+/-- acknowledging a prefix of the unacknowledged list makes the next message the head -/
+theorem unackedFrom_ack_prefix (pre : List (Id × Msg)) : ∀ (n : Nat) (rest : List (Id × Msg)),
+    ((pre ++ rest).map Prod.fst).Nodup →
+    unackedFrom (n, pre ++ rest) (pre.map (fun e => Ev.puback e.1)) = (n, rest) := by
+  induction pre with
+  | nil => intro n rest _; rfl
+  | cons e r ih =>
+    intro n rest nd
+    simp only [List.map_cons, unackedFrom, unackedStep, List.cons_append]
+    rw [filter_head_nodup e (r ++ rest) (by simpa using nd)]
+    apply ih
+    simp only [List.cons_append, List.map_cons, List.nodup_cons] at nd
+    exact nd.2
+
+/-- **Retransmission of EVERY pending message (strongest true form).** Let `(i, m)` be any unacknowledged
+message with older unacknowledged messages `pre` in front of it. Once the client has acknowledged those
+(in any way that covers `pre`; here: one PUBACK each), *every* tick re-sends `(i, m)` until its own PUBACK
+(`tick_keeps_unacked`, `no_resend_after_ack`). So each pending message is retransmitted at every tick from the
+moment all older ones are acknowledged — not before (`resent_iff_oldest`, `starved_behind_unacked_head`). -/
+theorem resent_once_older_acked (tr : List Ev) (h : NoWrap tr) (pre post : List (Id × Msg)) (i : Id) (m : Msg)
+    (hu : (unacked tr).2 = pre ++ (i, m) :: post) :
+    (doResend true (SessionQueue.run Sess.init (tr ++ pre.map (fun e => Ev.puback e.1)))).2 = [pkt i m] := by
+  have hc : ∀ (l : List (Id × Msg)) (n : Nat), consumed n (l.map (fun e => Ev.puback e.1)) = n := by
+    intro l; induction l with
+    | nil => intro n; rfl
+    | cons e r ih => intro n; simpa [consumed] using ih n
+  have h' : NoWrap (tr ++ pre.map (fun e => Ev.puback e.1)) := by
+    unfold NoWrap at h ⊢; rw [consumed_append, hc]; exact h
+  have nd := (packet_ids_distinct_while_pending tr h).1
+  rw [resend_oldest_unacked _ h']
+  have : (unacked (tr ++ pre.map (fun e => Ev.puback e.1))).2 = (i, m) :: post := by
+    unfold unacked
+    rw [unackedFrom_append]
+    have e : unackedFrom (0, []) tr = ((unacked tr).1, pre ++ (i, m) :: post) := by
+      rw [← hu]; rfl
+    rw [e, unackedFrom_ack_prefix pre _ _ (by rw [← hu]; exact nd)]
+  rw [this]; rfl
+
+/-- **At-least-once for every pending message against a client that acknowledges what it is sent.** After any
+`NoWrap` trace, the continuation tick, PUBACK(id₁), tick, PUBACK(id₂), … (one round per unacknowledged message,
+oldest first) writes exactly the unacknowledged messages, each once, in order, with their original ids, and
+leaves nothing pending. -/
+theorem drain_all_pending (tr : List Ev) (h : NoWrap tr) :
+    outputs (SessionQueue.run Sess.init tr) (ackAll (unacked tr).2) =
+      (unacked tr).2.map (fun e => pkt e.1 e.2) ∧
+    (SessionQueue.run (SessionQueue.run Sess.init tr) (ackAll (unacked tr).2)).pending = [] := by
+  have inv := qinv_run tr qinv_init h
+  have d := drain_all (unacked tr).2 inv
+  exact ⟨d.1, d.2.pend⟩
+
+/-- **Head-of-line starvation (all tick counts).** While the oldest unacknowledged message stays
+unacknowledged, `k` ticks write `k` copies of it and nothing else: a younger unacknowledged message is *never*
+retransmitted, for any `k`. Read literally ("a QoS1 message is retransmitted until that client acknowledges
+it", clients that omit PUBACK are in the quantifier) this violates the statement for the younger message.
+Known finding `C15-resend-head-of-line-starvation`. -/
+theorem starved_behind_unacked_head (tr : List Ev) (h : NoWrap tr) (e : Id × Msg) (u : List (Id × Msg))
+    (hu : (unacked tr).2 = e :: u) (k : Nat) :
+    outputs (SessionQueue.run Sess.init tr) (List.replicate k (Ev.tick true)) =
+      List.replicate k (pkt e.1 e.2) := by
+  have inv : QInv (SessionQueue.run Sess.init tr) (unacked tr).1 (unacked tr).2 := qinv_run tr qinv_init h
+  rw [hu] at inv
+  exact (ticks_only_resend_head inv k).1
+
+private def wm : Msg := ⟨"t", "old", 1⟩
+private def wm' : Msg := ⟨"t", "new", 1⟩
+private def wl : List (Bool × Msg) := List.replicate 65535 (true, ⟨"t", "z", 0⟩)
+
+/-- non-vacuity of the wrap theorem: a concrete 65 537-publish history (not evaluated step by step) -/
+example : (SessionQueue.run Sess.init (wrapTrace false false wm wm' wl)).pending = [(0, wm')] :=
+  (wrap_loses_unacked_message false false wm wm' wl rfl rfl
+    (by intro p hp; unfold wl at hp; rw [List.eq_of_mem_replicate hp]; decide)
+    (by unfold wl; exact List.length_replicate)).1
+example : pkt 0 wm ≠ pkt 0 wm' := by decide
+/-- non-vacuity of `wrap_overwrites_pending`: a state whose counter sits on a pending id -/
+example : alGet (⟨[(7, wm)], [7], 7⟩ : Sess).nextID (⟨[(7, wm)], [7], 7⟩ : Sess).pending = some wm := by decide
+/-- two unacknowledged messages, no PUBACK: three ticks re-send only the first; `m2` is starved -/
+example : outputs Sess.init [.publish true false m1, .publish true false m2, .tick true, .tick true, .tick true]
+    = [pkt 0 m1, pkt 1 m2, pkt 0 m1, pkt 0 m1, pkt 0 m1] := by decide
+example : NoWrap [.publish true false m1, .publish true false m2] ∧
+    (unacked [.publish true false m1, .publish true false m2]).2 = [(0, m1), (1, m2)] := by
+  constructor
+  · unfold NoWrap; decide
+  · decide
+/-- …and a client that acknowledges what it is sent gets both, each exactly once -/
+example : outputs (SessionQueue.run Sess.init [.publish true false m1, .publish true false m2])
+    (ackAll [(0, m1), (1, m2)]) = [pkt 0 m1, pkt 1 m2] := by decide
+
+/-! ### Extension mqtt: regenerated tie by translation (irlib, `harness/factextract/facts_c15_ir.go`)
+
+`Gen/FactsC15IR.lean` is translated from the bodies of the Go functions on every run; the theorems state that
+the translation equals the hand-written model for all inputs (proofs: `Proofs/SessionQueueIR.lean`). -/
+
+/-- `Broker.sendMsgToClient` (loop body: QoS comparison with `continue`, `getClient == nil` skip, `session.publish`
+with the message's QoS; nil subscriber map ⇒ nobody). -/
+theorem send_regenerated_from_source (conn : Client → Bool) (subs : List (Client × Nat)) (qos : Nat) :
+    Gen.FactsC15IR.extractionFailed = false ∧
+    Gen.FactsC15IR.sendIR conn subs false qos = (send conn qos subs).map (fun c => (c, qos)) ∧
+    Gen.FactsC15IR.sendIR conn subs true qos = [] :=
+  ⟨by decide, Delivery.send_regenerated_from_source conn subs qos⟩
+
+/-- **`topicNode.addClients`** (site of fix bcc037f): the generated loop is `Model.Topic.addMax` (per client the
+larger of the QoS already in the result map and the node's), and the map that successive `addClients` calls build
+from the empty map is `collapseMax` of all hits — the map `send_all_eligible_any_order` quantifies over. -/
+theorem addClients_regenerated_from_source (cls ans : List (Client × Nat)) (hits : List (Client × Nat)) (c : Client) :
+    Gen.FactsC15IR.extractionFailed = false ∧
+    Gen.FactsC15IR.addClientsIR cls ans = addMax cls ans ∧
+    addMax cls (addMax hits []) = addMax (hits ++ cls) [] ∧
+    alGet c (addMax hits []) = alGet c (collapseMax hits) :=
+  ⟨by decide, Topic.addClients_regenerated_from_source cls ans, Topic.addMax_append hits cls [],
+   Topic.addMax_eq_collapseMax_map hits c⟩
+
+example : Gen.FactsC15IR.addClientsIR [("c", 0), ("d", 1)] [("c", 1)] = [("c", 1), ("d", 1)] ∧
+    Gen.FactsC15IR.addClientsIR [("c", 1)] [("c", 0)] = [("c", 1)] := by decide
+
+/-- `Session.getPacketFromMsg` (id = `nextID`; `nextID++` on a uint16) -/
+theorem getPacket_regenerated_from_source (s : Sess) (m : Msg) :
+    Gen.FactsC15IR.extractionFailed = false ∧
+    Gen.FactsC15IR.getPacketIR s m = (pkt s.nextID m, (s.nextID + 1) % idMod) :=
+  ⟨by decide, SessionQueue.getPacket_regenerated_from_source s m⟩
+
+/-- `Session.publish` -/
+theorem publish_regenerated_from_source (online full : Bool) (m : Msg) (s : Sess) :
+    Gen.FactsC15IR.extractionFailed = false ∧
+    Gen.FactsC15IR.publishIR online full m s = publish online full m s :=
+  ⟨by decide, SessionQueue.publish_regenerated_from_source online full m s⟩
+
+/-- `Session.puback` -/
+theorem puback_regenerated_from_source (i : Nat) (s : Sess) :
+    Gen.FactsC15IR.extractionFailed = false ∧ Gen.FactsC15IR.pubackIR i s = puback i s :=
+  ⟨by decide, SessionQueue.puback_regenerated_from_source i s⟩
+
+/-- `Session.doResend` (head-of-line search over `pendingQueue`, queue cut `pendingQueue[i:]`, one packet) -/
+theorem doResend_regenerated_from_source (online : Bool) (s : Sess) :
+    Gen.FactsC15IR.extractionFailed = false ∧ Gen.FactsC15IR.doResendIR online s = doResend online s :=
+  ⟨by decide, SessionQueue.doResend_regenerated_from_source online s⟩
+
+/-- non-vacuity: the generated definitions compute on a concrete state -/
+example : Gen.FactsC15IR.sendIR (fun c => c != "c3") [("c1", 0), ("c3", 1), ("c2", 1)] false 1 = [("c2", 1)] := by
+  decide
+example : (Gen.FactsC15IR.doResendIR true ⟨[(2, m2)], [0, 2], 3⟩).2 = [pkt 2 m2] := by decide
 
 end EgVerif.C15
